@@ -152,6 +152,7 @@ func merge(src []*hintFileReader, dst string, ct *CollisionTable, hintState *int
 		idx = &hintFileIndex{mw.w.index.toIndex(), dst, w.hintFileMeta}
 	}
 	if err != nil {
+		verifPoint("fs.remove", dst)
 		utils.Remove(dst)
 		return nil, err
 	}
